@@ -1,5 +1,6 @@
 """C07 Faults confined to one request never harm the connection or other requests."""
 from engine import flow as fl, ru, paths as pa, expr, dispatch as dp
+from rules import shared
 
 EXPLANATION = (
     "Outcome tables and type facts: (a) CloseStream::handle_quic_stream_error maps a peer reset/stop "
@@ -16,7 +17,7 @@ EXPLANATION = (
     "structural part decided here.")
 # every anchor of these rules lives in the h3 crate: thorough tier repeats them on the feature-less build
 EXTRA_CONFIGS = ["h3-plain"]
-RULES = "C07-a stream-scoped faults are not connection-fatal (A3); C07-b stream errors never become clean EOF (A3); C07-c nothing but the shared state is shared (A12)"
+RULES = "C07-a stream-scoped faults are not connection-fatal (A3); C07-b stream errors never become clean EOF (A3); C07-c nothing but the shared state is shared (A12); shared: frame reader memo under C07-b"
 
 CEC = "h3::error::connection_error_creators::"
 FATAL = ("handle_connection_error_on_stream", "handle_connection_error", "set_conn_error_and_wake", "set_conn_error")
@@ -27,6 +28,9 @@ def fatal_in(prog, p):
 
 
 def run(ctx):
+    # a well-formed stream must never be reported as malformed: the frame reader's memo (shared with C02) is what turns a
+    # correct byte sequence delivered in pieces into H3_FRAME_ERROR when it goes stale
+    shared.frame_decoder_memo(ctx, "C07-b")
     prog = ctx.prog
     # ------------------------------------------------------------------ C07-a handle_quic_stream_error
     h = ru.need(ctx, "C07-a", CEC + "CloseStream::handle_quic_stream_error")
@@ -108,10 +112,9 @@ def run(ctx):
                 continue
             n += 1
             eos = [e for e in p.stores() if pa.vfmt(e[4]).endswith(".eos")]
-            poll = cls.get(())
-            res = cls.get(("Ready", "?")) if poll == "Ready" else None
-            brk = [t for t in p.tests if t[3][0] == "discr" and pa.head_call(t[3])[0] and pa.head_call(t[3])[0].endswith("Try>::branch")]
-            is_err = p.ret_shape().startswith("Residual")
+            fc = dp.frame_class(cls)   # Pending | Err[:v] | None | Some:* - whether the result was taken apart by `?` or by an explicit match
+            poll, res = ("Pending", None) if fc == "Pending" else ("Ready", fc)
+            is_err = p.ret_shape().startswith(("Residual", "Ready(Err("))
             if eos:
                 ok = res == "None" and not is_err
                 ctx.check(ok, "C07-b", key, "end-of-stream flag set only when the transport returned Ok(None)",
@@ -120,13 +123,14 @@ def run(ctx):
                           "reported as a truncated frame - a connection error H3_FRAME_ERROR that kills every other request"
                           % (poll, res), "", None, p.describe())
             if is_err:
-                ctx.check(not eos and isinstance(p.ret, tuple) and p.ret[0] == "errconv", "C07-b", key, "transport errors propagated unchanged",
-                          "an error path also sets eos", "")
+                same = isinstance(p.ret, tuple) and (p.ret[0] == "errconv" or (str(res).startswith("Err") and "<Err>.0" in pa.vfmt(p.ret) and cal.rsplit("::", 1)[-1] in pa.vfmt(p.ret)))
+                ctx.check(not eos and same, "C07-b", key, "transport errors propagated unchanged",
+                          "an error path also sets eos, or returns something other than the transport's error: %s" % pa.vfmt(p.ret)[:120], "")
             if p.ret_shape() in ("Ready(Ok(true))", "Ready(Ok(None))"):
                 ctx.check(res == "None", "C07-b", key, "`finished` reported only on Ok(None)",
                           "the reader reports a clean finish (%s) on transport result %s/%s" % (p.ret_shape(), poll, res), "", None, p.describe())
         ctx.floor("C07-b", "classified paths of " + key.rsplit("::", 1)[-1], n, 3)
-        errp = [p for p in ps if p.ret_shape().startswith("Residual")]
+        errp = [p for p in ps if p.ret_shape().startswith(("Residual", "Ready(Err("))]
         ctx.check(len(errp) >= 1, "C07-b", key, "an error path exists (errors are not swallowed)",
                   "%s has no path propagating the transport's error" % key, "")
     fs = ru.need(ctx, "C07-b", "h3::frame::FrameStream::try_recv")
@@ -160,8 +164,8 @@ def run(ctx):
         for v in a["variants"]:
             for f_ in v["fields"]:
                 ty = f_["ty"]
-                shared = [x for x in BAD if x in ty]
-                if not shared:
+                shared_ = [x for x in BAD if x in ty]
+                if not shared_:
                     ctx.ok("C07-c", "%s.%s:no shared mutable state" % (adt, f_["name"]), ty[:80])
                     continue
                 okv = (ty == "alloc::sync::Arc<h3::shared_state::SharedState>" or ty == "alloc::sync::Arc<h3::server::connection::RequestEnd>")
